@@ -1082,14 +1082,21 @@ func genCase(rt *rapid.T, small bool) *Case {
 			c.IDs = append(c.IDs, fmt.Sprintf("dyn#%d", i))
 			c.FromText = append(c.FromText, i%2 == 0)
 		}
-		// scope lists of every length 1..8 that name an action group of the fixture schema (view and edit are members of
+		// scope lists of every length 1..12 that name an action group of the fixture schema (view and edit are members of
 		// grp), parsed from text: whatever the validator and the authorizer derive from such a list (member actions,
 		// environments) must not be written into the shared policy
-		for n := 1; n <= 8; n++ {
+		// (lengths up to 12, written in no particular order: a container chosen by size, or a sort, would show)
+		for n := 1; n <= 12; n++ {
 			p := ir.NewPolicy(n%2 == 0)
-			acts := []ir.Value{ir.Ent(gen.ActionType, "grp")}
-			for k := 1; k < n; k++ {
-				acts = append(acts, ir.Ent(gen.ActionType, fmt.Sprintf("other%d", k)))
+			var acts []ir.Value
+			for k := n - 1; k >= 1; k-- {
+				if k == n/2 {
+					acts = append(acts, ir.Ent(gen.ActionType, "grp"))
+				}
+				acts = append(acts, ir.Ent(gen.ActionType, fmt.Sprintf("other%d", (k*7)%13)))
+			}
+			if n <= 2 {
+				acts = append(acts, ir.Ent(gen.ActionType, "grp"))
 			}
 			p.Action = ir.ScopeInSet(acts)
 			c.Policies = append(c.Policies, p)
